@@ -58,7 +58,29 @@ def copy_model(ctx, key: str) -> pathlib.Path:
     return dst / entry
 
 
+def load_fragmented(ctx, key: str, ncuts: int, rng, **kw):
+    """the same corpus model, cut into `ncuts` (possibly nested) fragment files by the independent fragmenter"""
+    import fragmenter
+
+    capellambse = import_capellambse()
+    base = key.split("+")[0]
+    src = copy_model(ctx, base)
+    capella = next(p for p in src.parent.glob("*.capella"))
+    cands = [c for c in fragmenter.candidate_cut_points(capella) if 3 <= c[2] <= 400]
+    cuts = []
+    for n, (cid, _d, _s) in enumerate(rng.sample(cands, min(ncuts, len(cands)))):
+        sub = rng.choice(["fragments", "fragments/deep dir", "."])
+        cuts.append((cid, f"{sub}/F{n} x.capellafragment" if sub != "." else f"F{n}.capellafragment"))
+    dst = ctx.scratch / f"frag-{base}-{rng.randrange(10**9)}"
+    layout = fragmenter.fragment(src, dst, cuts)
+    return capellambse.MelodyModel(str(layout.aird), **kw)
+
+
 def load(ctx, key: str, **kw):
+    if "+frag" in key:
+        import random
+
+        return load_fragmented(ctx, key, 4, random.Random(f"frag:{key}:{ctx.seed}"), **kw)
     capellambse = import_capellambse()
     path = copy_model(ctx, key)
     if key == "libproj":
@@ -114,7 +136,11 @@ def raw_scan(loader) -> dict[str, list[dict]]:
                 continue
             ids = [e.get(a) for a in idattrs if e.get(a) is not None]
             href = e.get("href")
-            rows.append({"nid": id(e), "ids": ids, "xt": xtype_of(e), "href": href.split("#")[-1] if href is not None else None, "el": e})
+            # a placeholder of a fragmented element (semantic file, has href) is not an element of its type:
+            # type searches must return the fragment root it stands for, not the placeholder
+            placeholder = href is not None and idattrs == ("id",)
+            rows.append({"nid": id(e), "ids": ids, "xt": None if placeholder else xtype_of(e),
+                         "href": href.split("#")[-1] if href is not None else None, "el": e})
         out[str(fname)] = rows
     return out
 
@@ -126,9 +152,11 @@ def index_dump(loader) -> dict[str, dict]:
         idc = tree._ModelFile__idcache
         xtc = tree._ModelFile__xtypecache
         hrefs = tree._ModelFile__hrefsources
+        sem = frag_idattrs(fname) == ("id",)
+        xt_clean = {xt: sorted(k for k, el in d.items() if not (sem and el.get("href") is not None)) for xt, d in xtc.items()}
         out[str(fname)] = {
             "idc": {k: (None if v is None else id(v)) for k, v in idc.items()},
-            "xtc": {xt: sorted(d.keys()) for xt, d in xtc.items() if d},
+            "xtc": {xt: ks for xt, ks in xt_clean.items() if ks},
             "hrefs": {k: id(v) for k, v in hrefs.items()},
         }
     return out
